@@ -4,6 +4,7 @@ package kernel
 
 import (
 	"fmt"
+	"sync"
 	"testing"
 	"time"
 
@@ -145,5 +146,135 @@ func TestVP_C35_topo_write(t *testing.T) {
 		}
 		_ = time.Now
 		c.Sample(map[string]any{"snapshots": len(model), "last_position": model[len(model)-1].pos})
+	})
+}
+
+// Two chains finalize at the same time (each chain has its own goroutine in the
+// node; only TopoWrite is serialized). The store proxy owns the schedule: the
+// first snapshot write to arrive is held back until another snapshot write has
+// completed or 250 ms have passed. If assigning a position and storing it are
+// one critical section, the second writer cannot overtake and positions reach
+// the store in increasing order; a listing taken after any write then never
+// shows a position whose predecessor appears later.
+func TestVP_C35_concurrent_commit_order(t *testing.T) {
+	c := kit.New(t, "C35", "rapid: 3..8 rounds in which two different chains each finalize one snapshot concurrently through the real finalization path, with the store proxy holding the first arriving WriteSnapshot until the other one completed (or 250 ms); oracle: positions reach the store in strictly increasing order (commit order = position order), and the listing from the first position of the round taken after each write never misses a smaller position that is stored later; non-trivial = round in which both writes were in flight together; distinct by (round count, chains)")
+	c.Require("round", "held-writer")
+	kit.SetChecks(kit.N(4, 120))
+	rapid.Check(t, func(t *rapid.T) {
+		e := vpC16Start("c35c")
+		defer func() { e.Close() }()
+		var mu sync.Mutex
+		var commitOrder []uint64
+		var held bool
+		var release chan struct{}
+		inflight := 0
+		e.k.Proxy.Hook = func(k int, name, phase string) {
+			if name != "WriteSnapshot" {
+				return
+			}
+			mu.Lock()
+			if phase == "before" {
+				inflight++
+				if !held && release != nil {
+					held = true
+					ch := release
+					mu.Unlock()
+					select {
+					case <-ch:
+					case <-time.After(250 * time.Millisecond):
+					}
+					return
+				}
+				mu.Unlock()
+				return
+			}
+			// after: the write is in the store
+			w := e.k.Proxy
+			w.mu.Lock()
+			if n := len(w.WOrder); n > 0 {
+				commitOrder = append(commitOrder, w.Written[w.WOrder[n-1]])
+			}
+			w.mu.Unlock()
+			inflight--
+			if held && release != nil {
+				select {
+				case <-release:
+				default:
+					close(release)
+				}
+			}
+			mu.Unlock()
+		}
+		rounds := rapid.IntRange(3, 8).Draw(t, "rounds")
+		for r := 0; r < rounds; r++ {
+			a := rapid.IntRange(0, 6).Draw(t, "chain_a")
+			b := (a + 1 + rapid.IntRange(0, 5).Draw(t, "chain_b")) % 7
+			mk := func(ci int) (*common.Snapshot, []*common.VersionedTransaction) {
+				e.seq++
+				e.clock += uint64(50 * time.Millisecond)
+				tx := e.net.BTCDeposit(common.NewInteger(1), 0, fmt.Sprintf("0xc35c-%d", e.seq), e.seq)
+				chain := e.k.Node.getOrCreateChain(e.net.NodeIds[ci])
+				newRound := false
+				if cache := chain.State.CacheRound; len(cache.Snapshots) > 0 {
+					start, _ := cache.Gap()
+					newRound = e.clock >= start+uint64(3*time.Second)
+				}
+				s := e.k.NextSnapshot(ci, []crypto.Hash{tx.PayloadHash()}, e.clock, newRound, (ci+3)%7)
+				e.k.Certify(s, 0)
+				return s, []*common.VersionedTransaction{tx}
+			}
+			s1, b1 := mk(a)
+			s2, b2 := mk(b)
+			mu.Lock()
+			held = false
+			release = make(chan struct{})
+			start := len(commitOrder)
+			mu.Unlock()
+			var wg sync.WaitGroup
+			errs := make([]string, 2)
+			run := func(i int, s *common.Snapshot, bodies []*common.VersionedTransaction) {
+				defer wg.Done()
+				fin, pan, err := e.finalize(s, bodies)
+				if pan != nil || err != nil || !fin {
+					errs[i] = fmt.Sprintf("finalize: %v %v %v", fin, err, pan)
+				}
+			}
+			wg.Add(2)
+			go run(0, s1, b1)
+			go run(1, s2, b2)
+			wg.Wait()
+			mu.Lock()
+			release = nil
+			got := append([]uint64{}, commitOrder[start:]...)
+			wasHeld := held
+			mu.Unlock()
+			for _, m := range errs {
+				if m != "" {
+					t.Fatalf("round %d: %s", r, m)
+				}
+			}
+			if len(got) != 2 {
+				t.Fatalf("round %d: %d snapshot writes observed, want 2", r, len(got))
+			}
+			if got[1] <= got[0] {
+				t.Fatalf("round %d: topology position %d reached the store after position %d: a cursor listing taken in between shows %d without %d, which then appears behind the cursor (chains %d and %d)", r, got[0], got[1], got[1], got[0], a, b)
+			}
+			cl := []string{"round"}
+			if wasHeld {
+				cl = append(cl, "held-writer")
+			}
+			c.Case(fmt.Sprint(rounds, r, a, b), wasHeld, cl...)
+		}
+		e.k.Proxy.Hook = nil
+		// final listing is gap-free from the first assigned position on
+		snaps, err := e.k.Node.persistStore.ReadSnapshotsSinceTopology(0, 500)
+		if err != nil {
+			t.Fatal(err)
+		}
+		for i := 1; i < len(snaps); i++ {
+			if snaps[i].TopologicalOrder != snaps[i-1].TopologicalOrder+1 {
+				t.Fatalf("positions %d then %d: the node skipped or repeated a position", snaps[i-1].TopologicalOrder, snaps[i].TopologicalOrder)
+			}
+		}
 	})
 }
